@@ -954,7 +954,7 @@ def _slice_in_bounds(ev, site, lits):
     if name.endswith("split_at") or name.endswith("split_at_mut"):
         whole = B.slice_form(site.args[0], True)
         bt = strip_sites(B.peel(site.args[0]))
-        base, s0, e0 = whole if whole is not None else (bt, ("c", 0), ("len", bt))
+        base, s0, e0 = whole if whole is not None else (bt, ("c", 0), B.int_form(T("len", B.peel(site.args[0])), True))
         st, en = s0, ("add", s0, IF(site.args[1]))
         top = e0
     else:
@@ -1016,8 +1016,11 @@ def _slice_in_bounds(ev, site, lits):
             if nd[0] == "wsub":
                 ok = prove_le0(B._lin(("sub", b, a)), facts)  # b <= a: no borrow
             else:
+                # the sum of two lengths of live allocations (each <= isize::MAX) cannot wrap in usize
+                la, lb = B._lin(a), B._lin(b)
+                both_len = all(l is not None and l[0] >= 0 and l[0] <= 4096 and sum(1 for _, c_ in l[1].items() if c_) <= 1 and all(k_[0] == "len" and c_ == 1 for k_, c_ in l[1].items() if c_) for l in (la, lb))
                 # a + b <= some length (lengths are < 2^63): no carry
-                ok = any(prove_le0(B._lin(("sub", ("add", a, b), ("len", x[1]))), [f for f in facts]) for f in facts for x in f[1] if x[0] == "len")
+                ok = both_len or any(prove_le0(B._lin(("sub", ("add", a, b), ("len", x[1]))), [f for f in facts]) for f in facts for x in f[1] if x[0] == "len")
             if ok:
                 exact.add(nd[3])
                 grew = True
